@@ -256,7 +256,7 @@ def plan(ctx):
             if quick:
                 bound, budget = (2, 6000) if set(ids) <= small else (1, 2500)
             else:
-                bound, budget = 2, 40000
+                bound, budget = 2, 15000
             tasks.append(("checks.C20", "task_tuple", (ids, bound, budget), b, "p"))
         if not quick:
             for ids in itertools.combinations(range(n), 3):
@@ -267,7 +267,7 @@ def plan(ctx):
     ctx.extra_coverage["atomicity_assumption"] = {"gil_release_symbols_imported_by_extension": syms,
                                                   "holds": not syms, "free_run": "non-exhaustive stress pass, see counters.free_run_calls_not_exhaustive"}
     ctx.notes["bounds"] = {"bodies": [b[0] for b in BODIES], "pairs": len(pairs), "preemption_bound": "1 (2 for the accessor-body pairs)" if quick else 2,
-                           "budget_per_tuple": "3000-6000" if quick else 40000}
+                           "budget_per_tuple": "2500-6000" if quick else 15000}
     return tasks
 
 
